@@ -1,24 +1,45 @@
 // C02: transactions are atomic — a failed transaction has only ante effects.
 //
-// Real gno.land app (engine chainx). For every tx of <=2 (quick) / <=3 (thorough) messages over a 10-message
-// menu (each failure cause of the statement is a menu entry), delivered from the same genesis state:
-//   X: block [T, F1, F2, F3]            W (twin): block [T', F1, F2, F3]
-// where T' has the same signer, fee and gas wanted but a single message that fails in the bank handler
-// without writing. Oracles:
-//   (a) T failed  => full multistore dump after T == dump after T' (byte for byte): "exactly as if only the
-//       fee payment and the sequence increment had happened"; and an independent decode check that the
-//       only keys changed w.r.t. the pre-state are the signer account (seq+1, coins-fee) and the fee collector.
-//   (b) T failed  => every follow-up Fi (other signer; reads/writes the same realm objects, re-deploys the
-//       path T tried to deploy) gives the same result/gas/data on X and W and the same dump afterwards
-//       ("no trace in in-memory caches").
-//   (c) T ok      => every message's effect is present (per-message predicate) and the fee was paid.
-// Block-gas crossings: blocks [T1 ok, T2] with MaxGas chosen so that T1+T2 crosses the limit while each
-// GasWanted <= MaxGas; T2 reported failed must satisfy (a)/(b) as well. Out-of-gas ladders (thorough; a few in
-// quick): the same tx with GasWanted stepped down through the execution.
+// Real gno.land app (engine chainx). Every case is one transaction T; when T is reported failed, an ante-only TWIN tx T'
+// (same signers, same signing mode, same fee and gas wanted; its first message fails in the bank handler without
+// writing) is delivered from the same state on a second chain, and the same follow-up txs run after both.
+//
+// Two ways of executing a case:
+//   * snapshot families (single/pair/triple, signers, oog-ladder): 8 workers, each with a PAIR of long-lived chains
+//     (Xc for T, Wc for T') holding one open block; a case is executed on top of an O(1) cache-wrap snapshot
+//     (chainx Push) that is dropped afterwards. The VM's in-memory caches are NOT rolled back by the snapshot — which is
+//     what the property is about; the package paths a case deploys (new<case>x<i>, bad<case>) are unique per case, so
+//     that what successful deployments of other cases leave there is never looked at.
+//   * real-block families on fresh chains (block-gas, later, cold): real blocks are begun, ended and committed; app
+//     hashes and a full dump of both stores are compared at the end.
+// Case families:
+//   single/pair(/triple)  every tx of <=2 (quick) / <=3 (thorough) messages over an 11-message menu, signer A; cases
+//                         that deploy or run code also in a variant where the never-deployed paths were called BEFORE;
+//   signers               signer configurations {A+B (A pays) ; A + B-through-a-session-key (A pays) ;
+//                         B-through-a-session-key (pays) + A} x [anchor by the payer ; an earlier successful message of
+//                         the SECOND signer (bank send / realm write / chain-parameter write) ; every failing kind, by
+//                         either signer];
+//   oog-ladder            the same tx with GasWanted stepped down through the execution;
+//   block-gas             blocks [prefix ok, T] whose gas sum crosses the block limit while each GasWanted <= MaxGas;
+//                         both blocks are ENDED and the follow-ups run in the next blocks (fresh block gas), with and
+//                         without an earlier block calling the never-deployed paths; for the AddPackage / MsgRun
+//                         crossings a third chain Y = X restarted after T's block (cold caches) runs the follow-ups too;
+//   cold / later          restart before T (both chains) / ordinary failures with follow-ups in later blocks and Y.
+// Oracles:
+//   (a) T failed => the write set after T == the write set after T' (byte for byte); and an independent decode
+//       check (anteOnlyDecoded) that the only keys changed are: the fee payer (coins-fee), every master-key signer
+//       (sequence+1), the session account of a session signer (sequence+1, spend_used+fee when it pays), the fee
+//       collector (+fee) — each compared byte for byte with (pre value + ante effect).
+//   (b) T failed => every follow-up (other signers and the same signer; read/write the same realm objects, CALL the
+//       paths T tried to deploy before re-deploying them, re-deploy them with different declarations, run another
+//       script from T's run path, use the session again) gives the same result/gas/data/events and the same write set
+//       on X, W (and Y); real blocks commit to the same app hash and the final full multistore dumps are identical.
+//   (c) T ok => every message's effect is present (per-message predicate) and nothing is compared with a twin.
 package main
 
 import (
 	"fmt"
+	"os"
 	"runtime/debug"
 	"sort"
 	"strings"
@@ -26,17 +47,26 @@ import (
 	"sync/atomic"
 	"time"
 
+	"github.com/gnolang/gno/gno.land/pkg/gnoland"
 	"github.com/gnolang/gno/gno.land/pkg/sdk/vm"
 	"github.com/gnolang/gno/tm2/pkg/amino"
 	abci "github.com/gnolang/gno/tm2/pkg/bft/abci/types"
+	"github.com/gnolang/gno/tm2/pkg/crypto"
 	"github.com/gnolang/gno/tm2/pkg/db/memdb"
+	"github.com/gnolang/gno/tm2/pkg/sdk/auth"
 	"github.com/gnolang/gno/tm2/pkg/sdk/bank"
 	"github.com/gnolang/gno/tm2/pkg/std"
 	"verif/engine/chainx"
 	"verif/engine/vk"
 )
 
-const stPath = "gno.land/r/verif/st"
+const (
+	stPath   = "gno.land/r/verif/st"
+	prmPath  = "gno.land/r/sys/params" // the only path the sys/params natives accept (stub of the governance realm)
+	fee      = int64(1_000_000)
+	defGas   = int64(20_000_000)
+	loopGas  = int64(8_000_000)
+)
 
 const realmSt = `package st
 
@@ -67,18 +97,36 @@ func Read(cur realm) string {
 }
 `
 
+const realmPrm = `package params
+
+import sp "sys/params"
+
+func SetInt64(cur realm, m, s, n string, v int64) { sp.SetSysParamInt64(m, s, n, v) }
+`
+
 var (
 	A, B, C = chainx.NewKey("A"), chainx.NewKey("B"), chainx.NewKey("C")
+	S       = chainx.NewKey("S") // B's session key: no account of its own
 	keys    = []chainx.Key{A, B, C}
+	dbg     = os.Getenv("VERIF_C02_DEBUG") != ""
 )
 
 func spec(maxGas int64) chainx.Spec {
 	s := chainx.Spec{Keys: keys, Fund: 1_000_000_000_000, MaxGas: maxGas}
-	s.GenesisTxs = []std.Tx{{
-		Msgs:       []std.Msg{chainx.AddPkg(A.Addr, stPath, map[string]string{"st.gno": realmSt})},
-		Fee:        std.NewFee(genGas(maxGas), std.NewCoin("ugnot", 1_000_000)),
-		Signatures: []std.Signature{{}},
-	}}
+	if maxGas > 0 {
+		// the gas price the EndBlocker derives from the block's gas legitimately differs between T and its twin
+		s.Mutate = func(gs *gnoland.GnoGenesisState) { gs.Auth.Params.TargetGasRatio = 0 }
+	}
+	for _, m := range []std.Msg{
+		chainx.AddPkg(A.Addr, stPath, map[string]string{"st.gno": realmSt}),
+		chainx.AddPkg(A.Addr, prmPath, map[string]string{"params.gno": realmPrm}),
+	} {
+		s.GenesisTxs = append(s.GenesisTxs, std.Tx{
+			Msgs:       []std.Msg{m},
+			Fee:        std.NewFee(genGas(maxGas), std.NewCoin("ugnot", fee)),
+			Signatures: []std.Signature{{}},
+		})
+	}
 	return s
 }
 
@@ -89,111 +137,396 @@ func genGas(maxGas int64) int64 {
 	return 100_000_000
 }
 
+// ---- signer configurations ------------------------------------------------------------------------------------------
+
+type cfgDef struct {
+	name    string
+	first   chainx.Key // fee payer
+	second  *chainx.Key
+	session bool // B signs through the session key S
+}
+
+var cfgs = []cfgDef{
+	{name: "A", first: A},
+	{name: "A+B", first: A, second: &B},
+	{name: "A+B@session", first: A, second: &B, session: true},
+	{name: "B@session+A", first: B, second: &A, session: true},
+}
+
+type signerInfo struct {
+	addr    crypto.Address
+	session bool
+	pub     crypto.PubKey
+}
+
+func (cf cfgDef) role(who int) crypto.Address {
+	if who == 1 {
+		if cf.second == nil {
+			panic("no second signer")
+		}
+		return cf.second.Addr
+	}
+	return cf.first.Addr
+}
+
+func (cf cfgDef) signers() []signerInfo {
+	mk := func(k chainx.Key) signerInfo {
+		if cf.session && k.Addr == B.Addr {
+			return signerInfo{k.Addr, true, S.Pub}
+		}
+		return signerInfo{k.Addr, false, k.Pub}
+	}
+	out := []signerInfo{mk(cf.first)}
+	if cf.second != nil {
+		out = append(out, mk(*cf.second))
+	}
+	return out
+}
+
+func sessionAcc(c *chainx.Chain) std.Account {
+	bz, ok := c.Get("main", string(auth.SessionStoreKey(B.Addr, S.Addr)))
+	if !ok {
+		return nil
+	}
+	var acc std.Account
+	amino.MustUnmarshal([]byte(bz), &acc)
+	return acc
+}
+
+// sign builds the tx for msgs, signed according to cf; the signer list of the messages must be exactly cf's.
+func (cf cfgDef) sign(c *chainx.Chain, msgs []std.Msg, gas int64) std.Tx {
+	tx := std.Tx{Msgs: msgs, Fee: std.NewFee(gas, std.NewCoin("ugnot", fee))}
+	want := cf.signers()
+	got := tx.GetSigners()
+	if len(got) != len(want) {
+		r.HarnessError("cfg %s: tx has %d signers", cf.name, len(got))
+	}
+	for i, sa := range got {
+		if sa != want[i].addr {
+			r.HarnessError("cfg %s: signer %d is %s", cf.name, i, sa)
+		}
+		var num, seq uint64
+		var k chainx.Key
+		var sessAddr crypto.Address
+		if want[i].session {
+			k, sessAddr = S, S.Addr
+			sa := sessionAcc(c)
+			if sa == nil {
+				r.HarnessError("cfg %s: no session account", cf.name)
+			}
+			num, seq = sa.GetAccountNumber(), sa.GetSequence()
+		} else {
+			for _, kk := range keys {
+				if kk.Addr == sa {
+					k = kk
+				}
+			}
+			ai := c.Account(sa)
+			num, seq = ai.Num, ai.Seq
+		}
+		sb, err := tx.GetSignBytes(chainx.ChainID, num, seq)
+		if err != nil {
+			panic(err)
+		}
+		sig, err := k.Priv.Sign(sb)
+		if err != nil {
+			panic(err)
+		}
+		tx.Signatures = append(tx.Signatures, std.Signature{PubKey: k.Pub, Signature: sig, SessionAddr: sessAddr})
+	}
+	return tx
+}
+
+// ---- message menu -----------------------------------------------------------------------------------------------------
+
 type msgDef struct {
 	name  string
 	fails bool // expected to fail when executed alone with ample gas
-	mk    func(i int) std.Msg
-	// effect predicate for a successful tx containing this message at position i (c is positioned after the tx)
-	effect func(c *chainx.Chain, pre map[string]string, post map[string]string, i int) string
+	mk    func(i int, who crypto.Address, inst string) std.Msg
 }
+
+// package paths are instance-renamed per case (see header)
+func newName(inst string, i int) string { return fmt.Sprintf("new%sx%d", inst, i) }
+func newPath(inst string, i int) string { return "gno.land/r/verif/" + newName(inst, i) }
+func badPath(inst string) string        { return "gno.land/r/verif/bad" + inst }
 
 func coins(n int64) std.Coins { return std.Coins{std.NewCoin("ugnot", n)} }
 
+const (
+	mSendOK = iota
+	mSendInsufficient
+	mCallWrite
+	mCallPanic
+	mCallLoop
+	mCallDeposit
+	mAddPkgOK
+	mAddPkgTypeErr
+	mRunOK
+	mCallGrow
+	mSetParam
+)
+
 var menu = []msgDef{
-	{"send_ok", false, func(i int) std.Msg {
-		return bank.MsgSend{FromAddress: A.Addr, ToAddress: C.Addr, Amount: coins(100)}
-	}, nil},
-	{"send_insufficient", true, func(i int) std.Msg {
-		return bank.MsgSend{FromAddress: A.Addr, ToAddress: C.Addr, Amount: coins(900_000_000_000_000)}
-	}, nil},
-	{"call_write", false, func(i int) std.Msg { return chainx.Call(A.Addr, nil, stPath, "Write", fmt.Sprintf("w%d", i)) }, nil},
-	{"call_panic_after_write", true, func(i int) std.Msg { return chainx.Call(A.Addr, nil, stPath, "WriteThenPanic") }, nil},
-	{"call_infinite_loop", true, func(i int) std.Msg { return chainx.Call(A.Addr, nil, stPath, "Loop") }, nil},
-	{"call_grow_deposit_too_small", true, func(i int) std.Msg {
-		m := vm.NewMsgCall(A.Addr, nil, stPath, "Grow", []string{"30"})
+	{"send_ok", false, func(i int, who crypto.Address, inst string) std.Msg {
+		return bank.MsgSend{FromAddress: who, ToAddress: C.Addr, Amount: coins(100)}
+	}},
+	{"send_insufficient", true, func(i int, who crypto.Address, inst string) std.Msg {
+		return bank.MsgSend{FromAddress: who, ToAddress: C.Addr, Amount: coins(900_000_000_000_000)}
+	}},
+	{"call_write", false, func(i int, who crypto.Address, inst string) std.Msg {
+		return chainx.Call(who, nil, stPath, "Write", fmt.Sprintf("w%d", i))
+	}},
+	{"call_panic_after_write", true, func(i int, who crypto.Address, inst string) std.Msg {
+		return chainx.Call(who, nil, stPath, "WriteThenPanic")
+	}},
+	{"call_infinite_loop", true, func(i int, who crypto.Address, inst string) std.Msg { return chainx.Call(who, nil, stPath, "Loop") }},
+	{"call_grow_deposit_too_small", true, func(i int, who crypto.Address, inst string) std.Msg {
+		m := vm.NewMsgCall(who, nil, stPath, "Grow", []string{"30"})
 		m.MaxDeposit = coins(1)
 		return m
-	}, nil},
-	{"addpkg_ok", false, func(i int) std.Msg {
-		return chainx.AddPkg(A.Addr, fmt.Sprintf("gno.land/r/verif/new%d", i), map[string]string{"a.gno": fmt.Sprintf("package new%d\n\nvar X = 1\n\nfunc F(cur realm) int { X++; return X }\n", i)})
-	}, nil},
-	{"addpkg_type_error", true, func(i int) std.Msg {
-		return chainx.AddPkg(A.Addr, "gno.land/r/verif/bad", map[string]string{"a.gno": "package bad\n\nvar X int = \"s\"\n"})
-	}, nil},
-	{"run_ok", false, func(i int) std.Msg {
-		return chainx.Run(A.Addr, nil, fmt.Sprintf("package main\n\nimport \"%s\"\n\nfunc main(cur realm) { println(st.Write(cross(cur), \"r%d\")) }\n", stPath, i))
-	}, nil},
-	{"call_grow_ok", false, func(i int) std.Msg { return chainx.Call(A.Addr, nil, stPath, "Grow", "3") }, nil},
+	}},
+	{"addpkg_ok", false, func(i int, who crypto.Address, inst string) std.Msg {
+		return chainx.AddPkg(who, newPath(inst, i), map[string]string{"a.gno": "package " + newName(inst, i) + "\n\nvar X = 1\n\nfunc F(cur realm) int { X++; return X }\n"})
+	}},
+	{"addpkg_type_error", true, func(i int, who crypto.Address, inst string) std.Msg {
+		return chainx.AddPkg(who, badPath(inst), map[string]string{"a.gno": "package bad" + inst + "\n\nvar X int = \"s\"\n\nfunc G(cur realm) int { return X }\n"})
+	}},
+	{"run_ok", false, func(i int, who crypto.Address, inst string) std.Msg {
+		return chainx.Run(who, nil, fmt.Sprintf("package main\n\nimport \"%s\"\n\nfunc main(cur realm) { println(st.Write(cross(cur), \"r%d\")) }\n", stPath, i))
+	}},
+	{"call_grow_ok", false, func(i int, who crypto.Address, inst string) std.Msg { return chainx.Call(who, nil, stPath, "Grow", "3") }},
+	// writes a key the ante handler READS for every tx (auth params), through the governance realm stub
+	{"call_setparam", false, func(i int, who crypto.Address, inst string) std.Msg {
+		return chainx.Call(who, nil, prmPath, "SetInt64", "auth", "p", "max_memo_bytes", fmt.Sprint(65600+i))
+	}},
 }
 
-// follow-ups by another signer
-func followUps(c *chainx.Chain) []std.Tx {
-	return []std.Tx{
-		c.MakeTx(keys, []std.Msg{chainx.Call(B.Addr, nil, stPath, "Read")}, chainx.TxOpt{}),
-		c.MakeTx(keys, []std.Msg{chainx.Run(B.Addr, nil, "package main\n\nimport \""+stPath+"\"\n\nfunc main() { println(st.Get(), st.Len()) }\n")}, chainx.TxOpt{}),
+type mref struct {
+	m   int // menu index
+	who int // 0 = fee payer, 1 = second signer
+}
+
+func refs(who int, ms ...int) []mref {
+	var out []mref
+	for _, m := range ms {
+		out = append(out, mref{m, who})
+	}
+	return out
+}
+
+// ---- follow-ups ---------------------------------------------------------------------------------------------------------
+
+type fuDef struct {
+	name string
+	mk   func(c *chainx.Chain, inst string, gas int64) std.Tx
+}
+
+func one(f func(inst string) std.Msg) func(c *chainx.Chain, inst string, gas int64) std.Tx {
+	return func(c *chainx.Chain, inst string, gas int64) std.Tx {
+		return c.MakeTx(keys, []std.Msg{f(inst)}, chainx.TxOpt{GasWanted: gas})
 	}
 }
 
-func followUps2(c *chainx.Chain) []std.Tx {
-	return []std.Tx{
-		c.MakeTx(keys, []std.Msg{chainx.Call(B.Addr, nil, stPath, "Write", "f")}, chainx.TxOpt{}),
-		c.MakeTx(keys, []std.Msg{chainx.AddPkg(B.Addr, "gno.land/r/verif/bad", map[string]string{"a.gno": "package bad\n\nvar X int = 7\n\nfunc G(cur realm) int { return X }\n"})}, chainx.TxOpt{}),
-		c.MakeTx(keys, []std.Msg{chainx.Call(B.Addr, nil, stPath, "Grow", "2")}, chainx.TxOpt{}),
-		// re-deploy (with different declarations at the same positions) the path a failed tx may have deployed, then call it
-		c.MakeTx(keys, []std.Msg{chainx.AddPkg(B.Addr, "gno.land/r/verif/new0", map[string]string{"a.gno": "package new0\n\nvar X = \"s\"\n\nfunc F(cur realm) string { X += \"t\"; return X }\n"})}, chainx.TxOpt{}),
-		c.MakeTx(keys, []std.Msg{chainx.Call(B.Addr, nil, "gno.land/r/verif/new0", "F")}, chainx.TxOpt{}),
-	}
+// Each follow-up is built (signed with the CURRENT sequence) right before it is delivered.
+var followUps = []fuDef{
+	{"B:call st.Read", one(func(inst string) std.Msg { return chainx.Call(B.Addr, nil, stPath, "Read") })},
+	{"B:run get", one(func(inst string) std.Msg {
+		return chainx.Run(B.Addr, nil, "package main\n\nimport \""+stPath+"\"\n\nfunc main() { println(st.Get(), st.Len()) }\n")
+	})},
+	// the paths a failed tx may have tried to deploy are CALLED before anything deploys them
+	{"B:call new0.F (never deployed)", one(func(inst string) std.Msg { return chainx.Call(B.Addr, nil, newPath(inst, 0), "F") })},
+	{"A:call bad.G (never deployed)", one(func(inst string) std.Msg { return chainx.Call(A.Addr, nil, badPath(inst), "G") })},
+	// another script from the run path of T's signer, with different declarations at the same positions
+	{"A:run other script", one(func(inst string) std.Msg {
+		return chainx.Run(A.Addr, nil, "package main\n\nimport \""+stPath+"\"\n\nvar pre = \"q\"\n\nfunc main(cur realm) { println(st.Write(cross(cur), pre+\"z\")) }\n")
+	})},
+	{"B:call st.Write", one(func(inst string) std.Msg { return chainx.Call(B.Addr, nil, stPath, "Write", "f") })},
+	{"B:addpkg bad (valid decls)", one(func(inst string) std.Msg {
+		return chainx.AddPkg(B.Addr, badPath(inst), map[string]string{"a.gno": "package bad" + inst + "\n\nvar X int = 7\n\nfunc G(cur realm) int { return X }\n"})
+	})},
+	{"B:call st.Grow", one(func(inst string) std.Msg { return chainx.Call(B.Addr, nil, stPath, "Grow", "2") })},
+	// re-deploy (with different declarations at the same positions) the path a failed tx may have deployed, then call it
+	{"B:addpkg new0 (other decls)", one(func(inst string) std.Msg {
+		return chainx.AddPkg(B.Addr, newPath(inst, 0), map[string]string{"a.gno": "package " + newName(inst, 0) + "\n\nvar X = \"s\"\n\nfunc F(cur realm) string { X += \"t\"; return X }\n"})
+	})},
+	{"A:call new0.F", one(func(inst string) std.Msg { return chainx.Call(A.Addr, nil, newPath(inst, 0), "F") })},
+	{"A:call bad.G", one(func(inst string) std.Msg { return chainx.Call(A.Addr, nil, badPath(inst), "G") })},
+	{"C:send to B", one(func(inst string) std.Msg { return bank.MsgSend{FromAddress: C.Addr, ToAddress: B.Addr, Amount: coins(5)} })},
+	// the session must still work (sequence, spend record) the same way
+	{"B@session:send", func(c *chainx.Chain, inst string, gas int64) std.Tx {
+		return cfgDef{name: "fu", first: B, session: true}.sign(c, []std.Msg{bank.MsgSend{FromAddress: B.Addr, ToAddress: C.Addr, Amount: coins(7)}}, gas)
+	}},
 }
+
+// ---- cases --------------------------------------------------------------------------------------------------------------
 
 type caseDef struct {
-	name     string
-	msgs     []int // menu indices
-	gas      int64 // GasWanted for T (0 = default 20M)
-	maxGas   int64 // block gas limit (0 = default)
-	prefixOK bool  // deliver an OK tx by C first in the block (block-gas crossing cases)
-	cold     bool  // restart both chains after genesis: VM caches are cold when T / its twin run
+	name    string
+	inst    string // instance id: part of every package path the case deploys
+	cfg     int
+	msgs    []mref
+	gas     int64 // GasWanted for T (0 = default 20M)
+	maxGas  int64 // block gas limit (0 = default 3e9, never reached)
+	prefix  int   // block-gas cases: 0 none, 1 small (call), 2 big (AddPackage) OK tx by C first in T's block
+	cold    bool  // restart after genesis/setup: VM caches are cold when T / its twin run
+	probe   bool  // the never-deployed paths are called before T (real-block families: in an earlier block)
+	later   bool  // T's block is ended right after T; every follow-up runs in a later block of its own
+	restart bool  // (later only) additionally: chain Y = same history, restarted after T's block
 }
+
+// real: executed with real blocks on fresh chains (the other cases run on snapshots of a worker's chain pair)
+func (cd caseDef) real() bool { return cd.maxGas != 0 || cd.cold || cd.later }
 
 var r *vk.Run
 
+func viol(key string, detail any) {
+	if dbg {
+		fmt.Printf("DBGV %s\n", key)
+	}
+	r.Violation(key, detail)
+}
+
+func (cd caseDef) gasT() int64 {
+	if cd.gas == 0 {
+		for _, m := range cd.msgs {
+			if m.m == mCallLoop {
+				return loopGas // the loop burns whatever is left: keep it short
+			}
+		}
+		return defGas
+	}
+	return cd.gas
+}
+
+// gas wanted of setup/follow-up txs: the block limit bounds GasWanted
+func (cd caseDef) gasAux() int64 {
+	if cd.maxGas > 0 && cd.maxGas < 50_000_000 {
+		return cd.maxGas
+	}
+	return 50_000_000
+}
+
+func (cd caseDef) names() []string {
+	var out []string
+	for _, m := range cd.msgs {
+		n := menu[m.m].name
+		if m.who == 1 {
+			n += "@2"
+		}
+		out = append(out, n)
+	}
+	return out
+}
+
+func (cd caseDef) label() string {
+	l := fmt.Sprintf("%s{%s}[%s]gas=%d", cd.name, cfgs[cd.cfg].name, strings.Join(cd.names(), ","), cd.gas)
+	if cd.cold {
+		l = "cold:" + l
+	}
+	if cd.probe {
+		l += "+probe"
+	}
+	if cd.later {
+		l += "+later"
+	}
+	return l
+}
+
 func (cd caseDef) build(c *chainx.Chain) std.Tx {
+	cf := cfgs[cd.cfg]
 	var ms []std.Msg
-	for i, mi := range cd.msgs {
-		ms = append(ms, menu[mi].mk(i))
+	for i, m := range cd.msgs {
+		ms = append(ms, menu[m.m].mk(i, cf.role(m.who), cd.inst))
 	}
-	g := cd.gas
-	if g == 0 {
-		g = 20_000_000
-	}
-	return c.MakeTx(keys, ms, chainx.TxOpt{GasWanted: g})
+	return cf.sign(c, ms, cd.gasT())
 }
 
-func twinTx(c *chainx.Chain, gas int64) std.Tx {
-	if gas == 0 {
-		gas = 20_000_000
+// twin: same signers, signing mode, fee and gas; one bank send of insufficient funds per signer (the first one fails in
+// the handler before any write, the rest is never executed).
+func (cd caseDef) twin(c *chainx.Chain) std.Tx {
+	cf := cfgs[cd.cfg]
+	ms := []std.Msg{menu[mSendInsufficient].mk(0, cf.first.Addr, cd.inst)}
+	if cf.second != nil {
+		ms = append(ms, menu[mSendInsufficient].mk(1, cf.second.Addr, cd.inst))
 	}
-	return c.MakeTx(keys, []std.Msg{menu[1].mk(0)}, chainx.TxOpt{GasWanted: gas})
+	return cf.sign(c, ms, cd.gasT())
 }
 
-type txObs struct {
-	res  abci.ResponseDeliverTx
-	dump map[string]string
+func prefixMsg(kind int) std.Msg {
+	if kind == 2 {
+		body := "package fill\n\nvar n int\n\nfunc Hello(cur realm) int {\n\tn++\n\treturn n\n}\n"
+		for i := 0; i < 30; i++ {
+			body += fmt.Sprintf("\nfunc Get%d() int { return n + %d }\n", i, i)
+		}
+		return chainx.AddPkg(C.Addr, "gno.land/r/verif/fill", map[string]string{"a.gno": body})
+	}
+	return chainx.Call(C.Addr, nil, stPath, "Grow", "4")
+}
+
+func (cd caseDef) probes() []std.Msg {
+	return []std.Msg{chainx.Call(B.Addr, nil, newPath(cd.inst, 0), "F"), chainx.Call(B.Addr, nil, badPath(cd.inst), "G"), chainx.Call(A.Addr, nil, newPath(cd.inst, 0), "F")}
 }
 
 var (
-	nTx      atomic.Int64
-	stateSet sync.Map
-	nStates  atomic.Int64
+	nTx, nChains, nRestarts, nSnapshots atomic.Int64
+	stateSet                            sync.Map
+	nStates                             atomic.Int64
+	tChain, tT, tFU, tDump              atomic.Int64
 )
 
-func deliver(c *chainx.Chain, tx std.Tx) txObs {
-	res := c.DeliverTx(tx)
-	d := c.Dump()
-	nTx.Add(1)
-	if _, loaded := stateSet.LoadOrStore(chainx.HashDump(d), true); !loaded {
+func since(t0 time.Time, a *atomic.Int64) { a.Add(int64(time.Since(t0))) }
+
+func countState(h string) {
+	if _, loaded := stateSet.LoadOrStore(h, true); !loaded {
 		nStates.Add(1)
 	}
-	return txObs{res, d}
+}
+
+// newChain: genesis + one block in which B creates its session (present on every chain, used by some cases).
+func newChain(maxGas int64) *chainx.Chain {
+	defer since(time.Now(), &tChain)
+	c, err := chainx.New(memdb.NewMemDB(), spec(maxGas))
+	if err != nil {
+		r.HarnessError("chain init: %v", err)
+	}
+	for _, tr := range c.Init.TxResponses {
+		if tr.Error != nil {
+			r.HarnessError("genesis tx failed (maxGas %d): %v %s", maxGas, tr.Error, firstLine(tr.Log))
+		}
+	}
+	nChains.Add(1)
+	m := auth.MsgCreateSession{Creator: B.Addr, SessionKey: S.Pub, AllowPaths: []string{"*"}, SpendLimit: coins(2_000_000_000_000_000)}
+	rs, _ := c.Block(c.MakeTx(keys, []std.Msg{m}, chainx.TxOpt{GasWanted: caseDef{maxGas: maxGas}.gasAux()}))
+	if rs[0].Error != nil {
+		r.HarnessError("create session failed: %s", firstLine(rs[0].Log))
+	}
+	return c
+}
+
+func restart(c *chainx.Chain) {
+	nRestarts.Add(1)
+	if err := c.Restart(); err != nil {
+		r.HarnessError("restart: %v", err)
+	}
+}
+
+type step struct {
+	name string
+	res  abci.ResponseDeliverTx
+	lay  layer
+	hash string
+	app  string // app hash when a block was committed after this step
+}
+
+type trace struct {
+	pre, post layer // around T
+	res       abci.ResponseDeliverTx
+	ok        bool
+	appT      string // app hash of T's block (later mode)
+	steps     []step
+	appEnd    string
+	dump      string // hash of the final full dump of the committed state
+	dumpMap   map[string]string
 }
 
 func errStr(r abci.ResponseDeliverTx) string {
@@ -203,198 +536,287 @@ func errStr(r abci.ResponseDeliverTx) string {
 	return fmt.Sprintf("%T", r.Error)
 }
 
-// anteOnlyDecoded: independent check that between pre and post only the signer account and the fee collector
-// changed, and in the way the ante handler changes them.
-func anteOnlyDecoded(pre, post map[string]string, fee int64) string {
-	signerKey := "main//a/" + string(A.Addr[:])
-	var changed []string
-	for k, v := range post {
-		if pre[k] != v {
-			changed = append(changed, k)
-		}
+// playReal executes the whole history of a case with real blocks on a fresh chain.
+func (cd caseDef) playReal(useTwin, restartAfterT, keepDump bool) *trace {
+	c := newChain(cd.maxGas)
+	if cd.probe {
+		c.BeginBlock()
+		cd.deliverProbes(c)
+		c.EndBlockCommit()
 	}
-	for k := range pre {
-		if _, ok := post[k]; !ok {
-			changed = append(changed, k)
-		}
-	}
-	sort.Strings(changed)
-	collector := 0
-	for _, k := range changed {
-		switch {
-		case k == signerKey:
-			var a0, a1 std.Account
-			if amino.Unmarshal([]byte(pre[k]), &a0) != nil || amino.Unmarshal([]byte(post[k]), &a1) != nil {
-				return "signer account undecodable"
-			}
-			if a1.GetSequence() != a0.GetSequence()+1 {
-				return fmt.Sprintf("signer sequence %d -> %d", a0.GetSequence(), a1.GetSequence())
-			}
-			if !a1.GetCoins().IsEqual(a0.GetCoins().Sub(coins(fee))) {
-				return fmt.Sprintf("signer coins %v -> %v (fee %d)", a0.GetCoins(), a1.GetCoins(), fee)
-			}
-		case strings.HasPrefix(k, "main//a/") && len(k) == len(signerKey):
-			collector++
-			var a0, a1 std.Account
-			if pre[k] != "" {
-				amino.Unmarshal([]byte(pre[k]), &a0)
-			}
-			if amino.Unmarshal([]byte(post[k]), &a1) != nil {
-				return "collector account undecodable"
-			}
-			old := std.Coins{}
-			if a0 != nil {
-				old = a0.GetCoins()
-			}
-			if !a1.GetCoins().IsEqual(old.Add(coins(fee))) {
-				return fmt.Sprintf("account %x coins %v -> %v is not +fee", k[len("main//a/"):], old, a1.GetCoins())
-			}
-		case strings.Contains(k, "globalAccountNumber"), strings.Contains(k, "/supply/"):
-			// account creation of the fee collector on its first credit
-		default:
-			return "non-ante key changed by a failed tx: " + show(k)
-		}
-	}
-	if collector > 1 {
-		return "more than one non-signer account changed"
-	}
-	return ""
-}
-
-func show(k string) string {
-	var b strings.Builder
-	for _, c := range []byte(k) {
-		if c >= 32 && c < 127 {
-			b.WriteByte(c)
-		} else {
-			fmt.Fprintf(&b, "\\x%02x", c)
-		}
-	}
-	return b.String()
-}
-
-func newChain(maxGas int64) *chainx.Chain {
-	c, err := chainx.New(memdb.NewMemDB(), spec(maxGas))
-	if err != nil {
-		r.HarnessError("chain init: %v", err)
-	}
-	for _, tr := range c.Init.TxResponses {
-		if tr.Error != nil {
-			r.HarnessError("genesis tx failed: %v %s", tr.Error, tr.Log)
-		}
-	}
-	return c
-}
-
-func (cd caseDef) run() {
-	r.Eval()
-	names := []string{}
-	for _, mi := range cd.msgs {
-		names = append(names, menu[mi].name)
-	}
-	label := fmt.Sprintf("%s[%s]gas=%d", cd.name, strings.Join(names, ","), cd.gas)
-
-	X := newChain(cd.maxGas)
 	if cd.cold {
-		label = "cold:" + label
-		if err := X.Restart(); err != nil {
-			r.HarnessError("restart: %v", err)
+		restart(c)
+	}
+	c.BeginBlock()
+	if cd.prefix != 0 {
+		p := c.MakeTx(keys, []std.Msg{prefixMsg(cd.prefix)}, chainx.TxOpt{GasWanted: cd.maxGas})
+		nTx.Add(1)
+		if pr := c.DeliverTx(p); pr.Error != nil {
+			r.HarnessError("%s: prefix tx failed: %v %s", cd.label(), pr.Error, firstLine(pr.Log))
 		}
 	}
-	X.BeginBlock()
-	if cd.prefixOK {
-		p := X.MakeTx(keys, []std.Msg{chainx.Call(C.Addr, nil, stPath, "Grow", "4")}, chainx.TxOpt{GasWanted: cd.maxGas})
-		if pr := X.DeliverTx(p); pr.Error != nil {
-			r.HarnessError("%s: prefix tx failed: %v %s", label, pr.Error, pr.Log)
+	return cd.fromT(c, useTwin, restartAfterT, true, keepDump)
+}
+
+// playSnap executes the history on top of a snapshot of c's open block and drops it afterwards.
+func (cd caseDef) playSnap(c *chainx.Chain, useTwin bool) *trace {
+	pop := c.Push()
+	defer pop()
+	nSnapshots.Add(1)
+	if cd.probe {
+		cd.deliverProbes(c)
+	}
+	return cd.fromT(c, useTwin, false, false, false)
+}
+
+func (cd caseDef) deliverProbes(c *chainx.Chain) {
+	for _, m := range cd.probes() {
+		pr := c.DeliverTx(c.MakeTx(keys, []std.Msg{m}, chainx.TxOpt{GasWanted: cd.gasAux() / 4}))
+		nTx.Add(1)
+		if pr.Error == nil {
+			r.HarnessError("%s: call to a never-deployed path succeeded", cd.label())
 		}
 	}
-	pre := X.Dump()
-	T := cd.build(X)
-	ox := deliver(X, T)
-	failed := ox.res.Error != nil
+}
+
+// fromT: T (or its ante-only twin), then the follow-ups. A successful T ends the history (oracle (c) needs no
+// follow-ups).
+func (cd caseDef) fromT(c *chainx.Chain, useTwin, restartAfterT, real, keepDump bool) *trace {
+	aux := cd.gasAux()
+	t := &trace{pre: snap(c)}
+	var tx std.Tx
+	if useTwin {
+		tx = cd.twin(c)
+	} else {
+		tx = cd.build(c)
+	}
+	t0 := time.Now()
+	t.res = c.DeliverTx(tx)
+	since(t0, &tT)
+	nTx.Add(1)
+	t.post = snap(c)
+	countState(t.post.hash())
+	t.ok = t.res.Error == nil
+	if t.ok {
+		if useTwin {
+			r.HarnessError("%s: twin tx unexpectedly succeeded", cd.label())
+		}
+		return t
+	}
+	hx := func(b []byte) string { return fmt.Sprintf("%x", b) }
+	later := real && cd.later
+	if later {
+		_, h := c.EndBlockCommit()
+		t.appT = hx(h)
+		if dbg {
+			t.dumpMap = c.Dump()
+		}
+		if restartAfterT {
+			restart(c)
+		}
+	}
+	for _, f := range followUps {
+		if later {
+			c.BeginBlock()
+		}
+		st := step{name: f.name}
+		t1 := time.Now()
+		st.res = c.DeliverTx(f.mk(c, cd.inst, aux))
+		since(t1, &tFU)
+		nTx.Add(1)
+		st.lay = snap(c)
+		st.hash = st.lay.hash()
+		countState(st.hash)
+		if later {
+			_, h := c.EndBlockCommit()
+			st.app = hx(h)
+		}
+		t.steps = append(t.steps, st)
+	}
+	if !real {
+		return t
+	}
+	if !later {
+		_, h := c.EndBlockCommit()
+		t.appEnd = hx(h)
+	}
+	t3 := time.Now()
+	d := c.Dump()
+	t.dump = chainx.HashDump(d)
+	since(t3, &tDump)
+	if keepDump {
+		t.dumpMap = d
+	}
+	return t
+}
+
+// ante-only twins of the real-block families are shared between the cases that have the same history around T
+var twins sync.Map // key -> *twinOnce
+
+type twinOnce struct {
+	once sync.Once
+	t    *trace
+}
+
+func (cd caseDef) twinKey() string {
+	return fmt.Sprintf("%s|gas=%d|max=%d|prefix=%d|cold=%v|probe=%v|later=%v", cfgs[cd.cfg].name, cd.gasT(), cd.maxGas, cd.prefix, cd.cold, cd.probe, cd.later)
+}
+
+func (cd caseDef) twinReal() *trace {
+	v, _ := twins.LoadOrStore(cd.twinKey(), &twinOnce{})
+	to := v.(*twinOnce)
+	to.once.Do(func() { to.t = cd.playReal(true, false, false) })
+	return to.t
+}
+
+var fuChecked atomic.Bool
+
+// checkTwin: the twin's own ante-only-ness (independent decoder) and non-vacuity of the follow-ups.
+func (cd caseDef) checkTwin(w *trace) {
+	if why := anteOnlyDecoded(changes(w.pre, w.post), cfgs[cd.cfg].signers(), fee); why != "" {
+		viol("failed-tx-has-non-ante-effects:twin:"+cfgs[cd.cfg].name, map[string]any{"case": cd.label(), "why": why, "log": firstLine(w.res.Log)})
+	}
+	for _, st := range w.steps {
+		// they must get past the ante handler on the reference chain
+		if strings.Contains(st.res.Log, "signature verification failed") || strings.Contains(st.res.Log, "invalid gas-wanted") || strings.Contains(st.res.Log, "unknown session") {
+			r.HarnessError("%s: follow-up %q rejected by the ante handler: %s", cd.label(), st.name, firstLine(st.res.Log))
+		}
+	}
+}
+
+// check runs one case; playX/playW execute the history with T / with its twin.
+func (cd caseDef) check(playX, playW func() *trace) {
+	r.Eval()
+	names := strings.Join(cd.names(), ",")
+	label := cd.label()
+	cf := cfgs[cd.cfg]
+	X := playX()
 	class := "ok"
-	if failed {
-		class = "failed:" + errStr(ox.res)
-		if strings.Contains(ox.res.Log, "out of gas") {
+	if !X.ok {
+		class = "failed:" + errStr(X.res)
+		if strings.Contains(X.res.Log, "out of gas") {
 			class += ":oog"
 		}
-		if strings.Contains(ox.res.Log, "block gas") {
+		if strings.Contains(X.res.Log, "block gas") {
 			class = "failed:block-gas"
 		}
 	}
 	r.Outcome(class)
-	r.Distinct(label + "|" + class)
-	if ox.res.GasUsed > ox.res.GasWanted && !strings.Contains(class, "block-gas") {
-		// C10's subject; recorded here as an observation only
-		r.Outcome("obs:gasUsed>gasWanted")
+	if cd.cfg != 0 {
+		r.Outcome("signers{" + cf.name + "}:" + class)
 	}
-	fee := int64(1_000_000)
-	if !failed {
+	r.Distinct(label + "|" + class)
+	if dbg {
+		fmt.Printf("DBG %s => %s gasUsed=%d log=%s\n", label, class, X.res.GasUsed, firstLine(X.res.Log))
+	}
+	if X.res.GasUsed > X.res.GasWanted && class != "failed:block-gas" {
+		r.Outcome("obs:gasUsed>gasWanted") // C10's subject; recorded here as an observation only
+	}
+	cs := changes(X.pre, X.post)
+	if X.ok {
 		// (c) every message took effect
-		if why := effects(X, cd, pre, ox.dump); why != "" {
-			r.Violation("ok-tx-missing-effect:"+strings.Join(names, ","), map[string]any{"case": label, "why": why})
+		if why := effects(cd, cs); why != "" {
+			viol("ok-tx-missing-effect:"+names, map[string]any{"case": label, "why": why})
 		}
 		return
 	}
+	if cd.maxGas != 0 && len(cs) == 0 && (strings.Contains(X.res.Log, "tx's gas wanted (0)") || strings.Contains(X.res.Log, "no block gas left")) {
+		// not enough block gas left to get to the point where the ante handler installs the tx gas meter: the tx is
+		// rejected like by the ante handler (no fee, no sequence) — not a delivered-and-failed tx; nothing changed.
+		r.Outcome("rejected-before-ante:block-gas")
+		return
+	}
+	fam := cd.name
+	if cd.probe {
+		fam += "+probe"
+	}
+	keyTail := fam + ":" + names
+	if cd.cfg != 0 {
+		keyTail = fam + "{" + cf.name + "}:" + names
+	}
 	// (a2) decoded ante-only check
-	if why := anteOnlyDecoded(pre, ox.dump, fee); why != "" {
-		key := "failed-tx-has-non-ante-effects:" + cd.name + ":" + strings.Join(names, ",")
+	if why := anteOnlyDecoded(cs, cf.signers(), fee); why != "" {
+		key := "failed-tx-has-non-ante-effects:" + keyTail
 		if class == "failed:block-gas" {
 			key = "block-gas-limit-crossing-tx-reported-failed-but-effects-persist"
 		}
-		r.Violation(key, map[string]any{"case": label, "result": chainx.ResKey(ox.res), "log": firstLine(ox.res.Log), "why": why, "diff": head(chainx.DiffDump(pre, ox.dump), 12)})
+		viol(key, map[string]any{"case": label, "result": chainx.ResKey(X.res), "log": firstLine(X.res.Log), "why": why, "changed": showChanges(cs)})
 		return
 	}
-	// twin W
-	W := newChain(cd.maxGas)
-	if cd.cold {
-		if err := W.Restart(); err != nil {
-			r.HarnessError("restart: %v", err)
-		}
-	}
-	W.BeginBlock()
-	if cd.prefixOK {
-		p := W.MakeTx(keys, []std.Msg{chainx.Call(C.Addr, nil, stPath, "Grow", "4")}, chainx.TxOpt{GasWanted: cd.maxGas})
-		W.DeliverTx(p)
-	}
-	ow := deliver(W, twinTx(W, cd.gas))
-	if ow.res.Error == nil {
-		r.HarnessError("%s: twin tx unexpectedly succeeded", label)
-	}
+	W := playW()
 	// (a) byte-for-byte equality with the ante-only twin
-	if chainx.HashDump(ox.dump) != chainx.HashDump(ow.dump) {
-		r.Violation("failed-tx-state-differs-from-ante-only-twin:"+strings.Join(names, ","), map[string]any{"case": label, "diff": head(chainx.DiffDump(ow.dump, ox.dump), 12)})
+	if X.post.hash() != W.post.hash() {
+		viol("failed-tx-state-differs-from-ante-only-twin:"+keyTail, map[string]any{"case": label, "diff": layerDiff(W.post, X.post)})
 		return
 	}
 	// (b) follow-ups
-	if cd.maxGas != 0 {
-		// in a gas-limited block T and its twin legitimately leave different amounts of block gas, so
-		// follow-ups in the same block are not comparable; cache traces are covered by the unlimited cases
+	if !cd.compare(X, W, "twin", "failed-tx-leaves-trace", keyTail) {
 		return
 	}
-	fx, fw := append(followUps(X), followUps2(X)...), append(followUps(W), followUps2(W)...)
-	for i := range fx {
-		rx, rw := deliver(X, fx[i]), deliver(W, fw[i])
-		if chainx.ResKey(rx.res) != chainx.ResKey(rw.res) || chainx.HashDump(rx.dump) != chainx.HashDump(rw.dump) {
-			r.Violation(fmt.Sprintf("failed-tx-leaves-trace:followup%d:%s", i, strings.Join(names, ",")), map[string]any{"case": label,
-				"followup": i, "after_failed_tx": chainx.ResKey(rx.res) + " " + firstLine(rx.res.Log), "after_twin": chainx.ResKey(rw.res) + " " + firstLine(rw.res.Log),
-				"diff": head(chainx.DiffDump(rw.dump, rx.dump), 12)})
+	for i, st := range X.steps {
+		cl := "ok"
+		if st.res.Error != nil {
+			cl = "failed"
+		}
+		r.Outcome(fmt.Sprintf("followup%02d:%s", i, cl))
+	}
+	if cd.restart {
+		Y := cd.playReal(false, true, false)
+		if Y.ok || chainx.ResKey(Y.res) != chainx.ResKey(X.res) || Y.post.hash() != X.post.hash() {
+			viol("nondeterministic-replay:"+keyTail, map[string]any{"case": label})
 			return
 		}
-	}
-	// the block must also commit to the same app hash
-	_, hx := X.EndBlockCommit()
-	_, hw := W.EndBlockCommit()
-	if string(hx) != string(hw) {
-		r.Violation("failed-tx-apphash-differs-from-twin:"+strings.Join(names, ","), map[string]any{"case": label})
+		if cd.compare(Y, X, "not-restarted", "failed-tx-leaves-trace-lost-by-restart", keyTail) {
+			r.Outcome("restarted-chain-agrees")
+		}
 	}
 }
 
-func effects(c *chainx.Chain, cd caseDef, pre, post map[string]string) string {
-	cKey := "main//a/" + string(C.Addr[:])
-	sends, lastWrite, grows := 0, "", 0
-	for i, mi := range cd.msgs {
-		switch menu[mi].name {
+// compare the histories after T of chain x against the reference chain w.
+func (cd caseDef) compare(x, w *trace, wname, keyHead, keyTail string) bool {
+	label := cd.label()
+	if x.appT != w.appT {
+		if dbg {
+			fmt.Printf("DBG apphash diff %s: %v\n", label, chainx.DiffDump(w.dumpMap, x.dumpMap))
+		}
+		viol("failed-tx-apphash-differs-from-"+wname+":"+keyTail, map[string]any{"case": label, "block": "the failed tx's block"})
+		return false
+	}
+	for i := range x.steps {
+		sx, sw := x.steps[i], w.steps[i]
+		if chainx.ResKey(sx.res) != chainx.ResKey(sw.res) || sx.hash != sw.hash || sx.app != sw.app {
+			viol(fmt.Sprintf("%s:followup%02d:%s", keyHead, i, keyTail), map[string]any{"case": label,
+				"followup": sx.name, "after_failed_tx": chainx.ResKey(sx.res) + " " + firstLine(sx.res.Log), "after_" + wname: chainx.ResKey(sw.res) + " " + firstLine(sw.res.Log),
+				"diff": layerDiff(sw.lay, sx.lay), "apphash_equal": sx.app == sw.app})
+			return false
+		}
+	}
+	if x.appEnd != w.appEnd {
+		viol("failed-tx-apphash-differs-from-"+wname+":"+keyTail, map[string]any{"case": label})
+		return false
+	}
+	if x.dump != w.dump {
+		// re-play both to show the difference
+		dx, dw := cd.playReal(false, wname != "twin", true), cd.playReal(wname == "twin", false, true)
+		viol("failed-tx-final-dump-differs-from-"+wname+":"+keyTail, map[string]any{"case": label, "diff": head(chainx.DiffDump(dw.dumpMap, dx.dumpMap), 12)})
+		return false
+	}
+	return true
+}
+
+// effects: every message of a successful tx left its effect in the tx's write set.
+func effects(cd caseDef, cs []change) string {
+	sends, lastWrite, grows, lastParam := 0, "", 0, ""
+	has := func(pred func(c change) bool) bool {
+		for _, c := range cs {
+			if pred(c) {
+				return true
+			}
+		}
+		return false
+	}
+	for i, m := range cd.msgs {
+		switch menu[m.m].name {
 		case "send_ok":
 			sends++
 		case "call_write":
@@ -403,65 +825,49 @@ func effects(c *chainx.Chain, cd caseDef, pre, post map[string]string) string {
 			lastWrite = fmt.Sprintf("r%d", i)
 		case "call_grow_ok":
 			grows += 3
+		case "call_setparam":
+			lastParam = fmt.Sprint(65600 + i)
 		case "addpkg_ok":
-			found := false
-			for k := range post {
-				if strings.Contains(k, fmt.Sprintf("gno.land/r/verif/new%d", i)) {
-					found = true
-					break
-				}
-			}
-			if !found {
-				return fmt.Sprintf("package new%d not in store after successful tx", i)
+			p := newPath(cd.inst, i)
+			if !has(func(c change) bool { return c.postOK && !c.preOK && strings.Contains(c.key, p) }) {
+				return "package " + p + " not in store after successful tx"
 			}
 		}
 	}
 	if sends > 0 {
-		var a0, a1 std.Account
-		amino.Unmarshal([]byte(pre[cKey]), &a0)
-		amino.Unmarshal([]byte(post[cKey]), &a1)
-		if !a1.GetCoins().IsEqual(a0.GetCoins().Add(coins(int64(100 * sends)))) {
-			return fmt.Sprintf("recipient got %v -> %v, want +%d", a0.GetCoins(), a1.GetCoins(), 100*sends)
-		}
-	}
-	if lastWrite != "" || grows > 0 {
-		f := c.MakeTx(keys, []std.Msg{chainx.Run(B.Addr, nil, "package main\n\nimport \""+stPath+"\"\n\nfunc main() { println(st.Get(), st.Len()) }\n")}, chainx.TxOpt{})
-		fr := c.DeliverTx(f)
-		if fr.Error != nil {
-			return "observer tx failed: " + firstLine(fr.Log)
-		}
-		got := strings.Fields(string(fr.Data))
-		out := fmt.Sprint(got)
-		_ = out
-		// MsgRun output is reported through the VM output writer, not Data; read the state from the dump instead
-	}
-	// state var check from the persisted objects: the written string must appear in a realm object
-	if lastWrite != "" {
-		found := false
-		for k, v := range post {
-			if strings.HasPrefix(k, "base/oid:") && strings.Contains(v, "\""+lastWrite+"\"") || strings.HasPrefix(k, "base/oid:") && strings.Contains(v, lastWrite) {
-				found = true
-				break
+		ok := has(func(c change) bool {
+			if c.key != accKey(C.Addr) || !c.preOK || !c.postOK {
+				return false
 			}
+			var a0, a1 std.Account
+			amino.Unmarshal([]byte(c.pre), &a0)
+			amino.Unmarshal([]byte(c.post), &a1)
+			return a1.GetCoins().IsEqual(a0.GetCoins().Add(coins(int64(100 * sends))))
+		})
+		if !ok {
+			return fmt.Sprintf("recipient did not get +%d", 100*sends)
 		}
-		if !found {
-			return "last written value " + lastWrite + " not found in any persisted realm object"
-		}
+	}
+	// state var check from the persisted objects: the written string must appear in a changed realm object
+	if lastWrite != "" && !has(func(c change) bool {
+		return strings.HasPrefix(c.key, "base/oid:") && c.postOK && strings.Contains(c.post, lastWrite)
+	}) {
+		return "last written value " + lastWrite + " not found in any persisted realm object"
+	}
+	if lastParam != "" && !has(func(c change) bool {
+		return strings.Contains(c.key, "auth:p:max_memo_bytes") && c.postOK && strings.Contains(c.post, lastParam)
+	}) {
+		return "parameter value " + lastParam + " not stored"
 	}
 	if grows > 0 {
-		n0, n1 := 0, 0
-		for k := range pre {
-			if strings.HasPrefix(k, "base/oid:") {
-				n0++
+		n := 0
+		for _, c := range cs {
+			if strings.HasPrefix(c.key, "base/oid:") && c.postOK && !c.preOK {
+				n++
 			}
 		}
-		for k := range post {
-			if strings.HasPrefix(k, "base/oid:") {
-				n1++
-			}
-		}
-		if n1-n0 < grows {
-			return fmt.Sprintf("Grow(%d) persisted only %d new objects", grows, n1-n0)
+		if n < grows {
+			return fmt.Sprintf("Grow(%d) persisted only %d new objects", grows, n)
 		}
 	}
 	return ""
@@ -485,34 +891,80 @@ func head(s []string, n int) []string {
 }
 
 func prio(c caseDef) int {
+	bg := strings.HasPrefix(c.name, "block-gas")
 	switch {
-	case strings.HasPrefix(c.name, "block-gas"):
-		return 0
-	case c.name == "single", c.name == "cold":
+	case bg && c.restart:
+		return 0 // longest cases first
+	case c.restart, c.cold:
 		return 1
-	case c.name == "oog-ladder":
+	case bg:
 		return 2
-	case c.name == "pair":
+	case c.name == "signers":
 		return 3
+	case c.name == "single":
+		return 4
+	case c.name == "oog-ladder":
+		return 5
+	case c.name == "pair":
+		return 6
 	}
-	return 4
+	return 7
 }
+
+func measure(c *chainx.Chain, ms []std.Msg) int64 {
+	pop := c.Push()
+	defer pop()
+	res := c.DeliverTx(c.MakeTx(keys, ms, chainx.TxOpt{}))
+	if res.Error != nil {
+		r.HarnessError("measure failed: %v %s", res.Error, firstLine(res.Log))
+	}
+	return res.GasUsed
+}
+
+const nWorkers = 8
 
 func main() {
 	debug.SetGCPercent(400)
 	r = vk.New("model_checking")
-	r.SetBudget(240*time.Second, 25*time.Minute)
+	r.SetBudget(300*time.Second, 25*time.Minute)
 	var cases []caseDef
 	n := len(menu)
+	fails := []int{}
+	deploys := func(ms ...int) bool {
+		for _, m := range ms {
+			if m == mAddPkgOK || m == mAddPkgTypeErr || m == mRunOK {
+				return true
+			}
+		}
+		return false
+	}
+	add := func(cd caseDef) {
+		cases = append(cases, cd)
+		if !cd.real() && cd.cfg == 0 && cd.name != "oog-ladder" {
+			var ms []int
+			anyFail := false
+			for _, m := range cd.msgs {
+				ms = append(ms, m.m)
+				anyFail = anyFail || menu[m.m].fails
+			}
+			if deploys(ms...) && anyFail {
+				cd.probe = true // variant: the never-deployed paths were called before T
+				cases = append(cases, cd)
+			}
+		}
+	}
 	for i := 0; i < n; i++ {
-		cases = append(cases, caseDef{name: "single", msgs: []int{i}})
+		add(caseDef{name: "single", msgs: refs(0, i)})
+		if menu[i].fails {
+			fails = append(fails, i)
+		}
 	}
 	for i := 0; i < n; i++ {
 		for j := 0; j < n; j++ {
 			if r.Quick() && !(menu[i].fails || menu[j].fails) && (i+j)%3 != 0 {
 				continue // quick: all pairs with a failing message, a third of the all-ok pairs
 			}
-			cases = append(cases, caseDef{name: "pair", msgs: []int{i, j}})
+			add(caseDef{name: "pair", msgs: refs(0, i, j)})
 		}
 	}
 	if r.Thorough() {
@@ -526,62 +978,200 @@ func main() {
 						}
 					}
 					if nf == 1 { // exactly one failing message, at every position
-						cases = append(cases, caseDef{name: "triple", msgs: []int{i, j, k}})
+						cases = append(cases, caseDef{name: "triple", msgs: refs(0, i, j, k)})
 					}
 				}
 			}
 		}
 	}
+	// signer configurations: [anchor by the fee payer ; successful message of the SECOND signer ; failing message by
+	// either signer]. vm/add_package can never be signed through a session (rejected by the ante handler: not a
+	// delivered-and-failed tx), so that combination is left out.
+	for ci := 1; ci < len(cfgs); ci++ {
+		cf := cfgs[ci]
+		for _, w := range []int{mSendOK, mCallWrite, mSetParam} {
+			for _, f := range fails {
+				for who := 0; who < 2; who++ {
+					if f == mAddPkgTypeErr && cf.session && cf.role(who) == B.Addr {
+						continue
+					}
+					cases = append(cases, caseDef{name: "signers", cfg: ci, msgs: []mref{{mSendOK, 0}, {w, 1}, {f, who}}})
+				}
+			}
+			// all messages succeed: (c)
+			cases = append(cases, caseDef{name: "signers", cfg: ci, msgs: []mref{{mSendOK, 0}, {w, 1}, {mCallGrow, 0}}})
+		}
+		// the second signer's only message is the failing one
+		for _, f := range []int{mSendInsufficient, mCallPanic} {
+			cases = append(cases, caseDef{name: "signers", cfg: ci, msgs: []mref{{mSendOK, 0}, {f, 1}}})
+		}
+	}
 	// cold-cache cases: a failed tx must not warm an in-memory cache either (restart after genesis on both chains)
-	for _, ms := range [][]int{{3}, {4}, {5}, {7}, {6, 1}, {2, 3}} {
-		cases = append(cases, caseDef{name: "cold", msgs: ms, cold: true})
+	for _, ms := range [][]int{{mCallPanic}, {mCallLoop}, {mCallDeposit}, {mAddPkgTypeErr}, {mAddPkgOK, mSendInsufficient}, {mCallWrite, mCallPanic}} {
+		cases = append(cases, caseDef{name: "cold", msgs: refs(0, ms...), cold: true})
+	}
+	// follow-ups in later blocks + a restarted third chain, for ordinary failures
+	for _, ms := range [][]int{{mAddPkgOK, mSendInsufficient}, {mRunOK, mCallPanic}, {mAddPkgTypeErr}} {
+		cases = append(cases, caseDef{name: "later", msgs: refs(0, ms...), later: true, restart: true, probe: len(ms) == 2})
 	}
 	// out-of-gas ladders: measure, then step GasWanted down
-	ladderMsgs := [][]int{{2}, {9}, {6}, {8}, {0, 2}, {2, 9}}
+	ladderMsgs := [][]int{{mCallWrite}, {mCallGrow}, {mAddPkgOK}, {mRunOK}, {mSendOK, mCallWrite}, {mCallWrite, mCallGrow}, {mSetParam}}
+	bgT := []bool{false, true, true, true, true, false, false} // quick: block-gas crossings only for txs heavy enough to leave room
 	steps := 6
 	if r.Thorough() {
 		steps = 40
 	}
-	for _, lm := range ladderMsgs {
-		c := newChain(0)
-		c.BeginBlock()
-		cd := caseDef{name: "measure", msgs: lm}
-		res := c.DeliverTx(cd.build(c))
-		if res.Error != nil {
-			r.HarnessError("ladder measure failed: %v %s", res.Error, res.Log)
+	mc := newChain(0) // measuring chain (also warms the process-wide stdlib cache before the workers start)
+	var gGenesis int64
+	for _, tr := range mc.Init.TxResponses {
+		gGenesis = max(gGenesis, tr.GasUsed)
+	}
+	mc.BeginBlock()
+	gPrefix := map[int]int64{}
+	for _, k := range []int{1, 2} {
+		gPrefix[k] = measure(mc, []std.Msg{prefixMsg(k)})
+	}
+	// gas of the ante-only twin (ante handler + a bank send that fails at once)
+	gAnte := func() int64 {
+		pop := mc.Push()
+		defer pop()
+		return mc.DeliverTx(caseDef{}.twin(mc)).GasUsed
+	}()
+	if dbg {
+		fmt.Printf("DBG prefix gas %v genesis max gas %d twin gas %d\n", gPrefix, gGenesis, gAnte)
+	}
+	for li, lm := range ladderMsgs {
+		cd := caseDef{name: "measure", msgs: refs(0, lm...), inst: fmt.Sprintf("m%d", li)}
+		var ms []std.Msg
+		for i, m := range cd.msgs {
+			ms = append(ms, menu[m.m].mk(i, A.Addr, cd.inst))
 		}
-		g := res.GasUsed
+		g := measure(mc, ms)
+		if dbg {
+			fmt.Printf("DBG gas %v = %d\n", cd.names(), g)
+		}
+		// from just above what the ante handler needs (below that the tx is rejected by the ante handler, without a
+		// fee: not a delivered-and-failed tx) up to what the tx needs
+		lo := gAnte + gAnte/5
 		for s := 1; s <= steps; s++ {
-			gw := g - (g*int64(s))/int64(steps+1)
-			cases = append(cases, caseDef{name: "oog-ladder", msgs: lm, gas: gw})
+			gw := g - ((g-lo)*int64(s))/int64(steps)
+			cases = append(cases, caseDef{name: "oog-ladder", msgs: cd.msgs, gas: gw})
 		}
-		cases = append(cases, caseDef{name: "oog-ladder", msgs: lm, gas: g - 1}, caseDef{name: "oog-ladder", msgs: lm, gas: g})
-		// block-gas crossings: prefix tx by C (Grow 4) + T; MaxGas between
-		for _, frac := range []int64{100, 60, 30} {
-			// prefix uses gP (measured below); limit = gP + g*frac/100  => T crosses the limit when frac < 100... and exactly fits at 100
-			cP := newChain(0)
-			cP.BeginBlock()
-			pr := cP.DeliverTx(cP.MakeTx(keys, []std.Msg{chainx.Call(C.Addr, nil, stPath, "Grow", "4")}, chainx.TxOpt{}))
-			if pr.Error != nil {
-				r.HarnessError("prefix measure failed")
+		cases = append(cases, caseDef{name: "oog-ladder", msgs: cd.msgs, gas: g - 1}, caseDef{name: "oog-ladder", msgs: cd.msgs, gas: g})
+		// block-gas crossings: prefix tx by C + T. R = block gas left when T starts, as a percentage of T's measured gas:
+		// 115 (fits), 96 / 88 (crosses by a little / more); T's own GasWanted (g+12.5%) is within the block limit
+		// and enough for all its messages, so T is failed by the BLOCK limit only. (Gas depends a little on the state
+		// the prefix leaves, and the part of the ante handler that runs before the tx gas meter is installed needs
+		// ~1.7M of block gas: the outcome classes are observed, not assumed.)
+		if !bgT[li] && r.Quick() {
+			continue
+		}
+		fracs := []int64{115, 96, 88}
+		if r.Thorough() {
+			fracs = []int64{115, 100, 99, 97, 94, 90, 85, 80, 70}
+		}
+		for _, frac := range fracs {
+			gw := g + g/8
+			pk := 0
+			for _, k := range []int{1, 2} {
+				if limit := gPrefix[k] + g*frac/100; gw <= limit && gGenesis+gGenesis/20 <= limit {
+					pk = k
+					break
+				}
 			}
-			limit := pr.GasUsed + g*frac/100
-			gw := g + 1000
-			if gw > limit {
-				gw = limit
+			if pk == 0 {
+				r.Outcome("block-gas:infeasible-split-skipped")
+				continue
 			}
-			cases = append(cases, caseDef{name: fmt.Sprintf("block-gas-%d%%", frac), msgs: lm, gas: gw, maxGas: limit, prefixOK: true})
+			limit := gPrefix[pk] + g*frac/100
+			dep := len(lm) == 1 && deploys(lm[0])
+			for _, probe := range []bool{false, true} {
+				if probe && !dep && r.Quick() {
+					continue
+				}
+				// a restarted third chain for the crossings of AddPackage / MsgRun
+				rs := dep && (frac == 96 || r.Thorough())
+				cases = append(cases, caseDef{name: fmt.Sprintf("block-gas-%d%%", frac), msgs: cd.msgs, gas: gw, maxGas: limit, prefix: pk, later: true, probe: probe, restart: rs})
+			}
 		}
 	}
-	r.Sample(map[string]any{"case": "pair[call_write,call_panic_after_write]", "meaning": "tx with an ok message followed by a message that writes and panics; must leave only fee+sequence"})
-	r.Sample(map[string]any{"case": "block-gas-60%[call_write]", "meaning": "second tx of a block whose gas crosses the block limit although GasWanted <= MaxGas"})
+	r.Sample(map[string]any{"case": "pair{A}[call_write,call_panic_after_write]", "meaning": "tx with an ok message followed by a message that writes and panics; must leave only fee+sequence"})
+	r.Sample(map[string]any{"case": "block-gas-96%{A}[addpkg_ok]+probe+later", "meaning": "second tx of a block whose gas crosses the block limit although GasWanted <= MaxGas; the package it deployed must not exist for the calls/re-deployment in the next blocks, on the same node and on a restarted one"})
+	r.Sample(map[string]any{"case": "signers{A+B@session}[send_ok,send_ok@2,send_insufficient]", "meaning": "A pays the fee, B signs through a session key (its master account is only READ by the ante handler); B's send must be rolled back when A's last message fails"})
 	sort.SliceStable(cases, func(i, j int) bool { return prio(cases[i]) < prio(cases[j]) })
-	r.ParFor(len(cases), func(i int) { cases[i].run() })
-	r.Assumptions = []string{
-		"twin tx = same signer/fee/gas with one bank send of insufficient funds (fails in the handler before any write); its own ante-only-ness is checked by the independent decoded-key oracle",
-		"state = every key/value of both stores of the deliver-state multistore (dump) — in-memory caches are observed through follow-up txs' results, gas and dumps",
-		"small scope: <=3 messages per tx, 10-entry message menu, one realm",
+	fam := map[string]int{}
+	for _, c := range cases {
+		fam[strings.SplitN(c.name, "-", 2)[0]]++
 	}
-	r.Finish("every tx of <=2 (quick) / <=3 with exactly one failing msg (thorough) messages over a 10-message menu + out-of-gas ladders + block-gas crossings; each executed on the real app and compared with an ante-only twin and through 4 follow-up txs; distinct = distinct (case, outcome class)",
-		true, map[string]any{"states": nStates.Load(), "transitions": nTx.Load(), "traces_validated_against_impl": nTx.Load(), "cases": len(cases)})
+	if dbg {
+		fmt.Printf("DBG families %v\n", fam)
+	}
+	// tasks: the snapshot workers (static round-robin assignment => deterministic per-chain histories) + one task per
+	// real-block case
+	var realCases []caseDef
+	snapCases := make([][]caseDef, nWorkers)
+	for i := range cases {
+		cases[i].inst = fmt.Sprintf("%04d", i)
+		if cases[i].real() {
+			cases[i].inst = "0000" // fresh chains: nothing to keep apart (and twins are shared between cases)
+			realCases = append(realCases, cases[i])
+		} else {
+			k := i % nWorkers
+			snapCases[k] = append(snapCases[k], cases[i])
+		}
+	}
+	guard := func(cd caseDef, f func()) {
+		if r.Expired() {
+			r.MarkCapped()
+			return
+		}
+		if rec := vk.Catch(f); rec != nil {
+			viol("panic-while-checking:"+cd.label(), map[string]any{"panic": fmt.Sprint(rec)})
+		}
+	}
+	r.ParFor(nWorkers+len(realCases), func(i int) {
+		if i < nWorkers {
+			if len(snapCases[i]) == 0 {
+				return
+			}
+			Xc, Wc := newChain(0), newChain(0)
+			Xc.BeginBlock()
+			Wc.BeginBlock()
+			for _, cd := range snapCases[i] {
+				guard(cd, func() {
+					cd.check(func() *trace { return cd.playSnap(Xc, false) }, func() *trace {
+						w := cd.playSnap(Wc, true)
+						cd.checkTwin(w)
+						return w
+					})
+				})
+			}
+			return
+		}
+		cd := realCases[i-nWorkers]
+		guard(cd, func() {
+			cd.check(func() *trace { return cd.playReal(false, false, false) }, func() *trace {
+				w := cd.twinReal()
+				cd.checkTwin(w)
+				return w
+			})
+		})
+	})
+	r.Assumptions = []string{
+		"twin tx = same signers/signing mode/fee/gas with one bank send of insufficient funds per signer (the first fails in the handler before any write); its own ante-only-ness is checked by the independent decoded-key oracle",
+		"state after a tx = every key written since the start of the history (snapshot families) / since BeginBlock (real-block families) in both stores, by effective value against the state below (cache layer); real-block families also compare app hashes and a full dump of both stores (every key/value) at the end of every history — in-memory caches are observed through follow-up txs' results, gas, write sets, and a restarted chain",
+		"snapshot families: the chain state is rolled back between cases by dropping a cache-wrap layer, the VM's in-memory caches are not; package paths deployed by a case are unique to it; the block gas meter is infinite there",
+		"gas-limited chains run with dynamic gas pricing off (auth TargetGasRatio = 0): the gas price written by the EndBlocker legitimately depends on the gas the failed tx burnt",
+		"small scope: <=3 messages per tx, 11-entry message menu, 3 realms, one session (no expiry, lifetime spend limit far above every amount)",
+		"ante handler rejections (no fee charged; includes a tx that finds too little block gas left to reach the point where the tx gas meter is installed) are not delivered-and-failed txs: they must change nothing",
+	}
+	if dbg {
+		fmt.Printf("DBG time(s): chains=%.1f T=%.1f followups=%.1f dumps=%.1f\n", time.Duration(tChain.Load()).Seconds(), time.Duration(tT.Load()).Seconds(), time.Duration(tFU.Load()).Seconds(), time.Duration(tDump.Load()).Seconds())
+	}
+	twinN := 0
+	twins.Range(func(_, _ any) bool { twinN++; return true })
+	r.Finish("every tx of <=2 (quick) / <=3 with exactly one failing msg (thorough) messages over an 11-message menu (+ variants with earlier calls to the never-deployed paths), 3 multi-signer/session configurations x second-signer write x failing kind, out-of-gas ladders, block-gas crossings with follow-ups in later blocks; each executed on the real app and compared with an ante-only twin (and a restarted chain for a subset) through 13 follow-up txs; distinct = distinct (case, outcome class)",
+		!r.Capped(), map[string]any{"states": nStates.Load(), "transitions": nTx.Load(), "traces_validated_against_impl": nTx.Load(), "cases": len(cases), "cases_per_family": fam,
+			"cases_on_snapshots": len(cases) - len(realCases), "cases_with_real_blocks": len(realCases), "snapshots": nSnapshots.Load(),
+			"chains_built": nChains.Load(), "restarts": nRestarts.Load(), "shared_twin_histories": twinN, "signer_configurations": len(cfgs), "followups_per_failed_tx": len(followUps)})
 }
